@@ -264,9 +264,10 @@ Fixpoint sq_while (fuel : nat) (quotes : list str) (i : nat) (lvl : Z)
       end
   end.
 
-(* the for loop of process_inlines *)
+(* the for loop of process_inlines; [inside] counts open autolinks (link_open/link_close
+   with info = auto): text inside an autolink is skipped *)
 Fixpoint sq_tokens (n : nat) (quotes : list str) (i : nat) (tokens : list token) (stack : list sq_item)
-  : list token :=
+         (inside : Z) : list token :=
   match n with
   | O => tokens
   | S n' =>
@@ -275,16 +276,18 @@ Fixpoint sq_tokens (n : nat) (quotes : list str) (i : nat) (tokens : list token)
       | Some t =>
           let lvl := tlevel t in
           let stack1 := truncate_stack stack lvl in
-          if negb (str_eqb (ttype t) s_text) then sq_tokens n' quotes (S i) tokens stack1
+          let inside1 := if str_eqb (ttype t) s_link_open && str_eqb (tinfo t) s_auto then inside + 1 else inside in
+          let inside2 := if str_eqb (ttype t) s_link_close && str_eqb (tinfo t) s_auto then inside1 - 1 else inside1 in
+          if negb (str_eqb (ttype t) s_text) || negb (inside2 =? 0) then sq_tokens n' quotes (S i) tokens stack1 inside2
           else
             let text := tcontent t in
             let '(tokens', stack') := sq_while (S (length text)) quotes i lvl tokens stack1 text 0 in
-            sq_tokens n' quotes (S i) tokens' stack'
+            sq_tokens n' quotes (S i) tokens' stack' inside2
       end
   end.
 
 Definition process_inlines (quotes : list str) (tokens : list token) : list token :=
-  sq_tokens (length tokens) quotes O tokens [].
+  sq_tokens (length tokens) quotes O tokens [] 0.
 
 Definition smartquotes_inline (quotes : list str) (t : token) : token :=
   if negb (str_eqb (ttype t) s_inline) || negb (test re_smartquotes_QUOTE_RE (tcontent t)) then t
